@@ -413,6 +413,28 @@ def campaign(ctx):
                             except HarnessError:
                                 ctx.label("grid_case_not_buildable")
     ctx.extra["collision_grid_exhaustive"] = True
+    # lax digit constraints x numbers whose rounding carries into a new digit: enumerated completely
+    carry = ["9.5", "99.5", "99.95", "999.9", "-99.87", "9.96", "99.99", "0.96", "99.4", "100", "9.4999", "0.5", "0.05", "-9.5", "999.5", "9999.9", "1E+2", "95E-1", "0.995"]
+    for o in ("decimal", "float"):
+        for md in (1, 2, 3, 4):
+            for dp in (None, 0, 1):
+                for sp in carry:
+                    idx += 1
+                    if idx % ctx.nshards != ctx.shard:
+                        continue
+                    c = {"max_digits": md}
+                    lax = ["max_digits"]
+                    if dp is not None:
+                        if dp > md:
+                            continue
+                        c["decimal_places"] = dp
+                        lax.append("decimal_places")
+                    ctx.ev()
+                    v = {"t": "decimal", "v": sp} if o == "decimal" else {"t": "float", "v": repr(float(sp))}
+                    try:
+                        body({"type": {"k": "con", "o": o, "c": c, "lax": lax, "m": "annotate"}, "value": v, "options": {}, "entry": ("call", "schema")[idx % 2], "part": "lax"})
+                    except HarnessError:
+                        ctx.label("grid_case_not_buildable")
     # unions whose earlier member could re-interpret a later member's output (the strict first stage prevents it), under every
     # spelling of the conversion flags - False spelled out included: enumerated completely
     L = lambda a: {"k": "list", "a": {"k": "leaf", "o": a}}
